@@ -25,14 +25,16 @@ def driversOnly : List (Site × List Cls) := [
   (Site.fn_pn533_Device_send_rsp_recv_cmd, [Cls.clf_CommunicationError, Cls.OSError, Cls.AssertionError]),
   (Site.fn_udp_Device_send_cmd_recv_rsp, [Cls.clf_CommunicationError, Cls.OSError]),
   (Site.fn_udp_Device_send_rsp_recv_cmd, [Cls.clf_CommunicationError, Cls.OSError])]
-theorem driversOnly_ok : checkOnly world table prog driversOnly = true := by decide +kernel
 def driversCan : List (Site × Cls) := [
   (Site.fn_pn53x_Device__send_cmd_recv_rsp, Cls.clf_pn53x_Chipset_Error),
   (Site.fn_pn53x_Device_send_cmd_recv_rsp, Cls.clf_TransmissionError),
   (Site.fn_pn53x_Device_send_cmd_recv_rsp, Cls.OSError),
   (Site.fn_rcs380_Device__send_cmd_recv_rsp, Cls.clf_rcs380_StatusError),
   (Site.fn_rcs380_Chipset_in_comm_rf, Cls.clf_rcs380_CommunicationError)]
-theorem driversCan_ok : checkCan world table prog driversCan = true := by decide +kernel
+/-- both lists, checked with one evaluation of the summary table -/
+theorem driversAll_ok : checkAll world table prog driversOnly [] driversCan = true := by decide +kernel
+theorem driversOnly_ok : checkOnly world table prog driversOnly = true := (checkAll_split driversAll_ok).1
+theorem driversCan_ok : checkCan world table prog driversCan = true := (checkAll_split driversAll_ok).2.2
 
 
 /-- the PN53x chipset layer raises `Chipset.Error`, `IOError`, and `AssertionError` (frame size / argument
